@@ -95,7 +95,8 @@ class C10(Check):
                "salt": rng.randrange(1000)}
         n = rng.randint(12, 40 if tier == "thorough" else 24)
         kinds = ["truncate", "truncate", "extend", "flip", "flip", "zero",
-                 "misdirect", "random", "field", "field", "field"]
+                 "misdirect", "random", "field", "field", "field",
+                 "whole_other"]
         cors = []
         for _ in range(n):
             k = rng.choice(kinds)
@@ -223,7 +224,7 @@ class C10(Check):
         sx, sy, sz = scn["shape"]
         sharded = scn["storage"].startswith("sharded")
         cs = max(sx, sy, sz) if sharded else None
-        size = [2 * sx + 1, sy, sz] if not sharded else [2 * cs, cs, cs]
+        size = [2 * sx + 1, sy, sz] if not sharded else [2 * cs + 1, cs, cs]
         chunk_sizes = [[sx, sy, sz]] if not sharded else [[cs, cs, cs]]
         sharding = None
         if sharded:
@@ -235,6 +236,8 @@ class C10(Check):
         want_dtype = np.dtype(scn["dtype"]).newbyteorder("<")
         grid = dsutil.chunk_grid(size, chunk_sizes[0])
         co0, co1 = grid[0], grid[1]
+        co_b = grid[-1] if grid[-1][1] - grid[-1][0] == 1 else next(
+            g for g in grid if g[1] - g[0] == 1)      # 1-voxel-thick border
         labels = scn["labels"] or None
 
         def arr_for(co, salt):
@@ -264,27 +267,29 @@ class C10(Check):
                 return res
             valid = bytes(valid)
             other = bytes(enc.encode(a1))
+            a_b = arr_for(co_b, scn["salt"] + 2)
+            valid_b = bytes(enc.encode(a_b))
         evals = 0
         sigs = set()
 
-        def store(fs, payload0):
-            """Place a payload where the reader will look for chunk 0."""
+        def store(fs, payload0, at=co0):
+            """Place a payload where the reader will look for a chunk."""
             with mounted(fs):
                 if sharded:
                     fs.put(DS + "/info", dsutil.info_bytes(info))
                     a = ShardedFileAccessor(DS, strategy="in memory")
-                    a.store_chunk(payload0, "k", co0)
+                    a.store_chunk(payload0, "k", at)
                     a.store_chunk(other, "k", co1)
                     a.close()
                 else:
-                    path = DS + "/k/{}-{}_{}-{}_{}-{}".format(*co0)
+                    path = DS + "/k/{}-{}_{}-{}_{}-{}".format(*at)
                     if gz:
                         fs.put(path + ".gz", gzipmod.compress(payload0, 1,
                                                               mtime=0))
                     else:
                         fs.put(path, payload0)
 
-        def read(fs):
+        def read(fs, at=co0):
             with mounted(fs):
                 a = get_accessor_for_url(DS, {})
                 p = precomputed_io.get_IO_for_existing_dataset(a)
@@ -292,7 +297,7 @@ class C10(Check):
                 # make the oracle depend on machine load
                 signal.setitimer(signal.ITIMER_PROF, WATCHDOG_CPU_S)
                 try:
-                    return sut(p.read_chunk, "k", co0)
+                    return sut(p.read_chunk, "k", at)
                 finally:
                     signal.setitimer(signal.ITIMER_PROF, 0)
 
@@ -319,16 +324,29 @@ class C10(Check):
         for ci, c in enumerate(trace["corruptions"]):
             if res.violations:
                 break
-            label, bad = self._corrupt(scn, valid, other, c)
-            if bad == valid or (sharded and len(bad) == 0):
+            at, want_shape = co0, a0.shape
+            if c["kind"] == "whole_other":
+                # a complete, valid chunk of ANOTHER shape stored at this
+                # position (misdirected whole-file write): the full chunk's
+                # payload at the 1-voxel border position or vice versa
+                if c["a"] % 2:
+                    label, bad, at, want_shape = ("whole_other", valid, co_b,
+                                                  a_b.shape)
+                else:
+                    label, bad = "whole_other", valid_b
+                if a_b.shape == a0.shape:
+                    continue
+            else:
+                label, bad = self._corrupt(scn, valid, other, c)
+            if (bad == valid and at == co0) or (sharded and len(bad) == 0):
                 continue
             log.add("CORRUPT", ci, label, core.h8(bad))
             fs = SimFS(log=log)
             fs.dirs[DS] = True
             fs.put(DS + "/info", dsutil.info_bytes(info))
-            store(fs, bad)
+            store(fs, bad, at)
             try:
-                st, got = read(fs)
+                st, got = read(fs, at)
             except Hang:
                 st, got = "hang", None
             steps += fs.total_calls
@@ -346,11 +364,12 @@ class C10(Check):
                             key=f"C10/hang/{scn['enc']}", narrow=narrow)
             elif st == "ok":
                 outcome = "array"
-                if not isinstance(got, np.ndarray) or got.shape != a0.shape:
+                if not isinstance(got, np.ndarray) or (
+                        got.shape != want_shape):
                     res.violate("C10/wrong-shape",
                                 f"{where}: returned shape "
                                 f"{getattr(got, 'shape', None)} instead of "
-                                f"{a0.shape}",
+                                f"{want_shape}",
                                 key=f"C10/wrong-shape/{scn['enc']}",
                                 narrow=narrow)
                 elif got.dtype != want_dtype:
